@@ -272,6 +272,8 @@ def match_known(v, known):
         sig = k.get("match", {})
         if "what_prefix" in sig and not v.get("what", "").startswith(sig["what_prefix"]):
             continue
+        if sig.get("zero_duration") and v.get("case", {}).get("duration") != 0:
+            continue
         if sig.get("zero_auto"):
             case = v.get("case", {})
             sp = case.get("spec")
